@@ -16,6 +16,13 @@ CommandCases ==
             @@ (IF CommandTable[c].kind \in {"unassigned", "unsupported"} THEN [fault |-> "command"] ELSE << >>)
             : p \in Payloads(c)} : c \in 0..255}
 
+\* a command that takes no parameters ignores whatever follows it, however much of it there is
+\* (and an unassigned byte stays InvalidCommand): payloads around and past the largest message
+LongPayloadCases ==
+    {[op |-> "decode2", tag |-> "command-long-payload", c |-> c, sv |-> << >>, wire |-> <<c>> \o Rep(fill, n)]
+     @@ (IF CommandTable[c].kind \in {"unassigned", "unsupported"} THEN [fault |-> "command"] ELSE << >>)
+        : c \in {0, 4, 7, 8, 9, 11, 13, 64, 66, 127, 128, 255}, fill \in {0, 160}, n \in {1023, 1024, 7607, 7608, 7609, 7610, 20000}}
+
 \* the prototype credential-management code must decode EXACTLY like 0x0A: every sub-command,
 \* every subset of parameters, faulty payloads too
 CmPayloads ==
@@ -29,7 +36,7 @@ PrototypeCases ==
 
 TableCases == {[op |-> "optable", tag |-> "optable", c |-> c] : c \in 0..255}
 
-MC_Cases == CommandCases \cup TableCases \cup PrototypeCases
+MC_Cases == CommandCases \cup TableCases \cup PrototypeCases \cup LongPayloadCases
 
 (***************************************************************************)
 (* C11 on the model                                                        *)
